@@ -176,6 +176,43 @@ def coupled_spec(draw):
             'incompat': incompat, 'start': start, 'conns': [], 'cons': []}
 
 
+@st.composite
+def dead_end_spec(draw):
+    """Two permanent selection choices A, B and a nested choice C below an option of B; every option of C is ruled out
+    in some branch by incompatibilities with an option of A or with a node that comes with C's originating node, so some
+    selections of A and B are dead ends (C left without options) that decoding has to correct away from - repeatedly,
+    because every vector of the declared space is decoded on the same processor"""
+    nodes = {'r': {'k': 'gen'}, 'ra': {'k': 'gen'}, 'rb': {'k': 'gen'}}
+    edges = [['r', 'ra'], ['r', 'rb']]
+    ids = draw(st.permutations(['c0', 'c1', 'c2']))
+    a_opts = [f'a{j}' for j in range(draw(ints(2, 3)))]
+    b_opts = [f'b{j}' for j in range(draw(ints(2, 3)))]
+    c_opts = [f'c{j}' for j in range(draw(ints(2, 3)))]
+    for o in a_opts+b_opts+c_opts:
+        nodes[o] = {'k': 'gen'}
+    host = draw(st.sampled_from(b_opts))
+    nodes['bx'] = {'k': 'gen'}       # comes with the host option
+    nodes['bc'] = {'k': 'gen'}       # originating node of the nested choice
+    edges += [[host, 'bx'], [host, 'bc']]
+    choices = [{'id': ids[0], 'origin': 'ra', 'opts': a_opts}, {'id': ids[1], 'origin': 'rb', 'opts': b_opts},
+               {'id': ids[2], 'origin': 'bc', 'opts': c_opts}]
+    incompat = []
+    for o in c_opts:
+        r = draw(ints(0, 3))
+        if r == 0:
+            continue
+        other = 'bx' if r == 1 else draw(st.sampled_from(a_opts))
+        if [other, o] not in incompat:
+            incompat.append([other, o])
+    if not incompat:
+        incompat.append([a_opts[-1], c_opts[0]])
+    spec = {'salt': draw(st.sampled_from([0, 0, 1, 3])), 'nodes': nodes, 'edges': edges, 'choices': choices,
+            'incompat': incompat, 'start': ['r'], 'conns': [], 'cons': []}
+    if draw(ints(0, 2)) == 0:
+        spec = draw(add_dvs(spec, max_dv=1))
+    return spec
+
+
 def gen_nodes(spec):
     return [n for n, nd in spec['nodes'].items() if nd['k'] == 'gen']
 
